@@ -179,3 +179,19 @@ def build(X):
     sl.rewrites.append({"rule": "slice", "what": "statements of lower_pipeline from `let window = rq::Window {` to `self.window = None;` wrapped as fn lower_one(&mut self, transform_call, ast_span)"})
     shims = SHIMS.replace("@PL_TYPES@", tc.text + "\n" + tk.text)
     return PRELUDE + model + shims + sl.text + "\n} // verus!\nfn main() {}\n"
+
+
+# ----------------------------------------------------------------------------- replay on the real compiler
+def replay(failure):
+    """the transforms of a pipeline are lowered one by one, none is dropped: executed on SQLite (the take / sort programs of unit split_order)"""
+    import split_order
+    for src, exp in split_order.TAKE_CASES:
+        r = split_order._window_try(src, exp)
+        if r["failing"]:
+            return r
+    return {"failing": False}
+
+
+def rerun(doc):
+    import split_order
+    return split_order._window_try(doc["input"], [tuple(r) for r in doc["expected"]])
